@@ -180,8 +180,49 @@ pub fn run_c16(cx: &mut Cx) {
                 q.proof_json = v2.to_string();
                 deliver(cx, verifier, q, format!("forged_retarget:{dname}"), false);
             }
+            // the same construction FAR outside (delta = +-(b + 1) * 2^200): beyond any tolerance the
+            // interval test on D_1 can have -- only that test refuses these
+            let far = Integer::from(&b + 1u32) << 200u32;
+            let get = |v: &Value, p: &str| leaves(v).into_iter().find(|(q, _)| q == p).map(|(_, x)| x);
+            for (dname, delta) in [("far-above", far.clone()), ("far-below", Integer::from(-&far))] {
+                let sh = Integer::from(&two_t * &delta);
+                let mut v2 = v.clone();
+                let (Some(e0), Some(ep), Some(ea2), Some(eb2), Some(ca), Some(cb), Some(da), Some(db)) = (get(&v, "E"), get(&v, "E_prime"), get(&v, "proof_of_tolerance.E_a_2"), get(&v, "proof_of_tolerance.E_b_2"), get(&v, "proof_of_tolerance.proof_large_i_a.C"), get(&v, "proof_of_tolerance.proof_large_i_b.C"), get(&v, "proof_of_tolerance.proof_large_i_a.D_1"), get(&v, "proof_of_tolerance.proof_large_i_b.D_1")) else { break };
+                let e_new = Integer::from(&e0 * &gpow(&delta)) % &n;
+                set_leaf(&mut v2, "E", &e_new);
+                set_leaf(&mut v2, "E_prime", &(Integer::from(&ep * &gpow(&sh)) % &n));
+                set_leaf(&mut v2, "proof_of_tolerance.E_a_2", &(Integer::from(&ea2 * &gpow(&sh)) % &n));
+                set_leaf(&mut v2, "proof_of_tolerance.E_b_2", &(Integer::from(&eb2 * &gpow(&Integer::from(-&sh))) % &n));
+                set_leaf(&mut v2, "proof_of_tolerance.proof_large_i_a.D_1", &Integer::from(&da + Integer::from(&ca % &m128) * &sh));
+                set_leaf(&mut v2, "proof_of_tolerance.proof_large_i_b.D_1", &Integer::from(&db - Integer::from(&cb % &m128) * &sh));
+                let mut q = f.clone();
+                q.e_expected = e_new;
+                q.proof_json = v2.to_string();
+                deliver(cx, verifier, q, format!("forged_far_retarget:{dname}"), false);
+            }
         }
     });
+    // the proof is generic in the hash: the same honest flow with a 64-octet digest (SHA-512)
+    {
+        let key_h = pool_key(cx.run_index / 48 % POOL_SIZE);
+        let (g2, h2, n2) = (key_h.cpk.g_bases[0].clone(), key_h.cpk.h.clone(), key_h.cpk.N.clone());
+        if let Some(item) = cx.item() {
+            cx.step(prover, "prove+verify-with-sha512", StepOpts { tick_budget: 5000, ..Default::default() }, move || {
+                let x = Integer::from(777);
+                let r = zkryptium::utils::random::random_bits(LN);
+                let c = CL03Commitment { value: (pow(&g2, &x, &n2) * pow(&h2, &r, &n2)) % &n2, randomness: r };
+                let (lo, hi) = (Integer::from(10), Integer::from(1000));
+                let p = Boudot2000RangeProof::prove::<sha2::Sha512>(&x, &c, &g2, &h2, &n2, &lo, &hi);
+                p.verify::<sha2::Sha512>(&g2, &h2, &n2, &lo, &hi)
+            }, move |cx, st| {
+                cx.cur_item = Some(item);
+                cx.eval(&[b"sha512", &item.to_le_bytes()], true);
+                cx.count("fault.other_hash_instantiation");
+                match st.out { Ok(true) => cx.count("verdict.MustAccept.accept"), other => cx.violation("C16", "verify/MustAccept-not-accepted/sha512-instantiation".into(), format!("777 in [10, 1000], prove::<Sha512> / verify::<Sha512>: {other:?}")) }
+                cx.cur_item = None;
+            });
+        }
+    }
     // a hostile or careless caller first: intervals the prover cannot serve (upper bound <= 0,
     // bounds reversed) -- whatever those calls do (they may panic), an honest proof made by the same
     // process afterwards is produced and accepted
